@@ -168,7 +168,7 @@ MANIFEST = {
 }
 
 META = {
-    'explanation': "C20: (CrossHair) sequences of seterr / seterr(all) / refused seterr (unknown kind, unknown reaction, one good + one bad entry) / errstate "
+    'explanation': "C20: (CrossHair) sequences of seterr / seterr(all) / refused seterr / errstate (unknown kind alone or after a valid entry, unknown reaction, one good + one bad entry) / errstate "
                    "blocks (nested, left normally or by an exception, with `all`) are encoded by symbolic int selectors and run on the real biom.err; after every "
                    "step geterr() must equal a reference model of a scoped configuration stack; each shard must come back `Confirmed over all paths`. seterrcall / "
                    "geterrcall per kind. (SX) the reaction matrix 7 kinds x 5 reactions x triggering / non-triggering input at every errcheck call site "
